@@ -2,6 +2,7 @@
    Statements only.  Part 1: the text-level writers (every byte of document text reaches the
    output through one of them).  Part 2 (L1): the whole renderer on well-formed trees. *)
 Require Import GM.model.Base GM.model.Util GM.model.HtmlDecode GM.model.HtmlWriter GM.model.UtilI GM.proofs.Concrete.
+Require Import GM.model.Reader GM.model.Html GM.model.HtmlI GM.model.HtmlSpec GM.proofs.HtmlConcrete.
 Open Scope N_scope.
 
 (* Writer.Write (text, titles, info strings): no raw < > double-quote; every & starts one of the
@@ -20,3 +21,37 @@ Theorem C03_render_attributes_out : forall filter attrs,
   Forall (fun a => attr_name_ok (a_name a) = true) attrs -> AttrsOut (RenderAttributes filter attrs).
 Proof. exact RenderAttributes_out. Qed.
 Print Assumptions C03_render_attributes_out.
+
+(* ---------------- Part 2: the whole renderer (L1) ---------------- *)
+(* RenderHTML: html.go plus the table, footnote, strikethrough, task-list and definition-list
+   renderers, on the list-of-children tree dumped from the real parser; wf_tree: the
+   well-formedness predicate evaluated on every dumped tree; Inert / InertX: sequences of
+   properly nested and closed elements of the fixed vocabulary, attributes `name="value"` with
+   names of the safe grammar, text and attribute values free of raw < > double-quote with every
+   & starting a character reference, the only comment the placeholder; InertX additionally has
+   every void element self-closed. *)
+Theorem C03_safe_render_inert : forall c src t o, unsafe c = false -> wf_tree src t = true ->
+  RenderHTML c src t = Ok o -> Inert o.
+Proof. exact RenderHTML_safe_inert. Qed.
+Print Assumptions C03_safe_render_inert.
+
+Theorem C03_safe_render_inert_xhtml : forall c src t o, unsafe c = false -> xhtml c = true -> wf_tree src t = true ->
+  RenderHTML c src t = Ok o -> InertX o.
+Proof. exact RenderHTML_safe_inert_xhtml. Qed.
+Print Assumptions C03_safe_render_inert_xhtml.
+
+(* non-vacuity: an attribute-carrying heading, an image with a quote in its alt text *)
+Definition demo_tree : tree :=
+  Node KDocument [] None
+    [Node (KHeading 2%Z) [mkseg 0 1] (Some [{| a_name := [105;100]; a_val := AVBytes [34;120] |}])
+          [Node (KText (mkseg 0 1) false false false) [] None []];
+     Node KParagraph [] None [Node (KImage [47;117] (Some [60])) [] None [Node (KText (mkseg 1 2) false false false) [] None []]]].
+Definition demo_cfg : rcfg := {| unsafe := false; xhtml := true; hardwraps := false; talign := 0%Z |}.
+Example C03_demo_wf : wf_tree [60;34] demo_tree = true.
+Proof. vm_compute. reflexivity. Qed.
+Example C03_demo_render : exists o, RenderHTML demo_cfg [60;34] demo_tree = Ok o /\ InertX o.
+Proof.
+  destruct (RenderHTML_total demo_cfg [60;34] demo_tree C03_demo_wf) as [o Ho].
+  exists o. split; [exact Ho|].
+  exact (RenderHTML_safe_inert_xhtml demo_cfg [60;34] demo_tree o eq_refl eq_refl C03_demo_wf Ho).
+Qed.
